@@ -86,7 +86,7 @@ theorem grp_converges (sh : Shared) (diff : Differ) (hd : GoodDiffer diff) (hid 
   -- names of the groups on the device after the rule phase
   have hnewnd : (((planState diff a b).bGrp.filter (·.needed)).map (·.newName)).Nodup := by
     have hnn : ∀ gb ∈ (planState diff a b).bGrp, gb.newName ∈ newGroupNames a b := fun gb hgb => (hfbG gb hgb).choose_spec.2.2
-    obtain ⟨_, hnnd, _⟩ := uniqNames_spec suffixInj ((sortVsys a).groups.map (·.name)) ((sortVsys b).groups.map (·.name))
+    obtain ⟨_, hnnd, _, _⟩ := groupNamesFor_spec suffixInj (sortVsys a) (sortVsys b)
       (by rw [sortVsys_groups_names]; exact hbgn)
     have h1 := congrArg (List.map (fun p : Grp × String => p.2)) hmono.bg
     have h2 := congrArg (List.map (fun p : Grp × String × String => p.2.1)) (stM_gmark a b).bg
